@@ -1,37 +1,92 @@
 (* C01 — client-visible operations on a shard are linearizable.
    Statements only: each theorem is closed by [exact <lemma>]; proofs live in
-   Proofs/Linearizability.v.  Definitions: Model/Linearizability.v. *)
+   Proofs/Linearizability.v.  Definitions: Model/Linearizability.v
+   (history, wf_hist, pts_ok, linearizes, linearizable_hist, check_witness, weave,
+   and the hypotheses C02_.. C03_.. C05_.. C06_.. C12_.. of the composition).
+
+   What is and is not proved here: the definition of the property on recorded
+   histories, a verified certificate checker for it, and the composition
+   "protocol properties => the log (with reads woven in) is a linearization".
+   The unconditional statement over all traces of the protocol
+   (DESIGN.md: linearizable : forall tr, trace init tr -> ...) needs the hypotheses
+   of linearizable_from_log to be discharged from the L2 protocol model
+   (C02 state_machine_safety, C03 leader_completeness, C06 read_index_not_stale);
+   until then they are assumptions of this file and are exercised on the
+   implementation by the end-to-end harness (recorded histories). *)
 From Coq Require Import List NArith Arith Bool.
 From DB Require Import Gen.GenC01 Model.Linearizability Proofs.Linearizability.
 Import ListNotations.
 Local Open Scope nat_scope.
 
-(* the verified certificate checker: a recorded history that passes the check with
+(* The verified certificate checker: a recorded history that passes the check with
    ANY proposed order is linearizable in the sense of the property (every completed
    operation takes effect exactly once at a point between its invocation and its
    response, Timeout/Dropped/Terminated ones at most once and after their
-   invocation, refused ones never, results are the sequential specification's) *)
+   invocation, refused ones never, results are the sequential specification's). *)
 Theorem check_witness_sound : forall h order,
   check_witness h order = true -> linearizable_hist h.
 Proof. exact check_witness_sound_proved. Qed.
 Print Assumptions check_witness_sound.
 
-(* non-vacuity: two clients, a write that times out but takes effect later, a read
-   that observes it, a refused write; the checker accepts the order [1;2;3] *)
-Definition ex_hist : history :=
-  [ Inv 1 (OpWrite 7 10); Inv 2 (OpWrite 7 20); Resp 1 (Completed (0, 1)%N);
-    Resp 2 Timeout; Inv 3 (OpRead 7); Inv 4 (OpWrite 7 30); Resp 4 Refused;
-    Resp 3 (Completed (20, 2)%N) ]%N.
+(* ... and the accepted order itself is a linearization of a well-formed history *)
+Theorem check_witness_sound_order : forall h order,
+  check_witness h order = true -> wf_hist h /\ linearizes h order.
+Proof. exact check_witness_linearizes. Qed.
+Print Assumptions check_witness_sound_order.
+
+(* The greedy choice of effect points made by the checker loses nothing: effect
+   points exist for an order iff the linear pass prec_ok accepts it. *)
+Theorem effect_points_iff_greedy : forall h lin,
+  (exists pt, pts_ok h lin pt) <-> prec_ok h 0 lin = true.
+Proof. exact effect_points_iff_greedy_proved. Qed.
+Print Assumptions effect_points_iff_greedy.
+
+(* Composition (DESIGN.md "linearizable_from_safety"): IF the protocol-level
+   properties hold of a history h, the agreed log of client writes, the prefix each
+   read observed (obs) and the ghost commit count cmt, THEN h is linearizable, and
+   the linearization is "log order with each completed read inserted after the
+   prefix it observed" (weave). *)
+Theorem linearizable_from_log : forall h log obs cmt,
+  wf_hist h ->
+  C05_at_most_once h log ->
+  C02_state_machine_safety h log obs cmt ->
+  C03_leader_completeness h log cmt ->
+  C12_completed_after_local_apply h log cmt ->
+  C06_read_index_not_stale h obs cmt ->
+  linearizable_hist h /\ linearizes h (weave h log obs).
+Proof. exact linearizable_from_log_proved. Qed.
+Print Assumptions linearizable_from_log.
+
+(* non-vacuity.  Two clients, a write that times out but takes effect, a read that
+   observes it, a refused write: *)
 Example check_witness_accepts : check_witness ex_hist [1; 2; 3]%N = true.
 Proof. vm_compute. reflexivity. Qed.
-(* ... and rejects a stale read (the read of 10 after write 2 completed) *)
+(* the checker rejects a stale read (10 is read after the write of 20 completed) *)
 Example check_witness_rejects_stale :
   check_witness [ Inv 1 (OpWrite 7 10); Resp 1 (Completed (0, 1)%N);
                   Inv 2 (OpWrite 7 20); Resp 2 (Completed (10, 2)%N);
                   Inv 3 (OpRead 7); Resp 3 (Completed (10, 1)%N) ]%N [1; 3; 2]%N = false.
 Proof. vm_compute. reflexivity. Qed.
+(* the hypotheses of linearizable_from_log are met by that history with log [1;2],
+   the read having observed 2 entries, commits at events 2 and 4 *)
+Example from_log_hypotheses_met :
+  wf_hist ex_hist /\
+  C05_at_most_once ex_hist ex_log /\
+  C02_state_machine_safety ex_hist ex_log ex_obs ex_cmt /\
+  C03_leader_completeness ex_hist ex_log ex_cmt /\
+  C12_completed_after_local_apply ex_hist ex_log ex_cmt /\
+  C06_read_index_not_stale ex_hist ex_obs ex_cmt.
+Proof. exact ex_hyps. Qed.
+Example from_log_witness : weave ex_hist ex_log ex_obs = [1; 2; 3]%N.
+Proof. vm_compute. reflexivity. Qed.
 
-(* tie G: the anchors the argument rests on are present in the source *)
+(* tie G: the anchors the argument rests on are present in the source, and the
+   result codes are pairwise distinct *)
 Example anchors_present :
   (c01_read_release_guard && c01_leader_readindex_guard && c01_apply_path_completion) = true.
+Proof. vm_compute. reflexivity. Qed.
+Example codes_distinct :
+  nodupb [c01_code_requestTimeout; c01_code_requestCompleted; c01_code_requestTerminated;
+          c01_code_requestRejected; c01_code_requestDropped; c01_code_requestAborted;
+          c01_code_requestCommitted] = true.
 Proof. vm_compute. reflexivity. Qed.
